@@ -512,10 +512,15 @@ def firstReject (pl : XPlan) : Nat → Repo → List Ev → Nat → Option Nat
 
 /-! ## C10: the executable statement after a completed full prune -/
 
+/-- the distinct index entries (pack, blob entry): the same entry listed by two index files is one
+    entry, as in the loaded master index (`merge` drops identical entries) -/
+def distinctEntries (r : Repo) : List (ID × Entry) :=
+  (r.indexes.flatMap fun i => i.2.flatMap fun x => x.2.map fun e => (x.1, e)).eraseDups
+
 /-- the index holds exactly the used blobs, each once, names only present packs, and every
     present pack is named -/
 def fullPruneOK (used : List BlobH) (r : Repo) : Bool :=
-  let ib := (indexBlobs r).map (·.2)
+  let ib := (distinctEntries r).map (·.2.blob)
   ib.all (fun b => used.contains b) &&
   used.all (fun b => ib.count b = 1) &&
   (indexedPacks r).all (packPresent r) &&
